@@ -14,7 +14,7 @@ META = dict(
     functions=["Bf3File.read_file", "Bf3File.from_binary", "Bf3File.dir_from_binary", "BytesReader.read/read_int/eof/ensure_eof", "Bec2File.read_file", "Bec2File.unpack_auth_blocks", "AuthBlock unpack methods", "AesEncryptorMixin.decrypt", "Bf3File.write_file (to build the authentic file)", "AES128Proxy.mac/encrypt/decrypt"],
     stubs=["S-io", "S-cbc", "S-crc", "S-sha", "S-mac-ideal (A1/A2 on top of the real adapter's mac)", "text-layer bypass"],
     assumptions=["A1: MAC injective on the writer's queries", "A2: MAC unforgeable (a never-MACed input yields a value different from every 16-byte window of the damaged file)", "text-level cuts reduce to binary prefix (+ 0h byte) by hex2bin's odd-length rule; cuts inside the comment header always fail to parse (AST inspection, not a solver verdict)"],
-    bounds=dict(quick="shapes: BF3 1 component (5-byte payload, 1 tag), BF3 1 component 16 bytes no tag, BF3 encrypted 17-byte component, BEC2 with customer-key block + 5-byte component; every byte position x {replace, cut, cut+nibble} (BEC2 auth-block ciphertext: first/last byte of each cipher block only); append 1 and 2 bytes; other key. Positions whose damage turns MAC bytes into parser structure are decided at a reduced level recorded per position in coverage.levels: the property's replacement classes (each bit flip, 00, FF, +1) instead of all 255 values, and if needed concrete distinct MAC tokens", thorough="adds BF3 2 components (3 + 16 bytes), BF3 33-byte payload with 2 tags, BEC2 update block + encrypted component, BEC2 cust+update"),
+    bounds=dict(quick="shapes: BF3 1 component (5-byte payload, 1 tag), BF3 1 component 16 bytes no tag, BF3 encrypted 17-byte component, BEC2 with customer-key block + 5-byte component; every byte position x {replace, cut, cut+nibble} (BEC2 auth-block ciphertext: one byte of the second cipher block only; C08's arbitrary-frame query covers the frame parser for every decrypted frame); append 1 and 2 bytes; other key. Positions whose damage turns MAC bytes into parser structure are decided at a reduced level recorded per position in coverage.levels: the property's replacement classes (each bit flip, 00, FF, +1) instead of all 255 values, and if needed concrete distinct MAC tokens", thorough="adds BF3 2 components (3 + 16 bytes), BF3 33-byte payload with 2 tags, BEC2 update block + encrypted component, BEC2 cust+update"),
     outside=["multi-byte damage other than prefix/suffix", "MAC collisions/forgeries (assumed away by A1/A2)", "shapes beyond the catalogue"],
 )
 
@@ -63,17 +63,17 @@ def jobs(tier, seed):
             allpos = list(range(n))
             if tier == "quick" and kind == "replace" and sh["framing"] == "bec2":
                 # auth-block ciphertext: the uninterpreted cipher treats the 16 bytes of a block alike;
-                # quick keeps the first and last byte of each cipher block, thorough runs every position
+                # quick keeps one byte of the second cipher block, thorough runs every position
                 skip = set()
                 p0 = 5
                 for _ in sh["blocks"]:
                     ct = list(range(p0 + 2, p0 + 2 + 32))
-                    skip |= set(ct) - {ct[0], ct[15], ct[16], ct[31]}
+                    skip |= set(ct) - {ct[16]}
                     p0 += 34
                 allpos = [x for x in allpos if x not in skip]
             for a in range(0, len(allpos), CHUNK):
                 pos = allpos[a : a + CHUNK]
-                J.append(dict(name="%s:%s:%d-%d" % (sh["name"], kind, pos[0], pos[-1]), kind=kind, shape=sh, positions=pos, n=n, tier=tier, timeout=3400 if tier == "quick" else 20000, cost=300 if (sh["framing"] == "bec2" and kind == "replace") else 100))
+                J.append(dict(name="%s:%s:%d-%d" % (sh["name"], kind, pos[0], pos[-1]), kind=kind, shape=sh, positions=pos, n=n, tier=tier, timeout=7000 if tier == "quick" else 30000, cost=300 if (sh["framing"] == "bec2" and kind == "replace") else 100))
         J.append(dict(name="%s:append" % sh["name"], kind="append", shape=sh, positions=[1, 2], n=n, timeout=900, cost=50))
         J.append(dict(name="%s:otherkey" % sh["name"], kind="otherkey", shape=sh, positions=[0], n=n, timeout=900, cost=50))
         J.append(dict(name="%s:undamaged-twin" % sh["name"], kind="twin", shape=sh, positions=[0], n=n, timeout=600, cost=30))
@@ -95,11 +95,45 @@ def build(bf, b2, sym, sh, vals):
     return bf.Bf3File({}, comps)
 
 
+def structural_mask(sh):
+    """positions whose byte does not depend on contents/keys (sizes, addresses, tag ids,
+    lengths, sentinel, block tags): equal in two concrete real-crypto writes with
+    different contents.  Computed before the stubs are installed."""
+    import io as _io
+    from bec2format import bf3file as bf, bec2file as b2
+
+    outs = []
+    for seedbyte in (0x11, 0xA7):
+        comps = []
+        for i, c in enumerate(sh["comps"]):
+            desc = {tid: (b"\x02" if (tid == 0xC2 and c.get("enc")) else bytes([seedbyte ^ t]) * tl) for t, (tid, tl) in enumerate(c["tags"])}
+            comps.append(bf.Bf3Component(desc, bytes([(seedbyte + 3 * k) % 256 for k in range(c["plen"])]), c["plen"], encrypt_by_session_key=bool(c.get("enc"))))
+        f = bf.Bf3File({}, comps)
+        key = bytes([seedbyte]) * 16
+        s = _io.StringIO()
+        if sh["framing"] == "bf3":
+            f.write_file(s, key)
+        else:
+            blocks, enc = [], []
+            for k in sh["blocks"]:
+                if k == "cust":
+                    blocks.append(b2.InitCustKeyAuthBlock())
+                    enc.append(b2.SoftwareCustKeyEncryptor(bytes([seedbyte ^ 0x55]) * 16))
+                else:
+                    blocks.append(b2.UpdateAuthBlock(bytes([seedbyte]) * 8, 3))
+            b2.Bec2File(f, blocks, key).write_file(s, enc)
+        outs.append(bytes.fromhex("".join(s.getvalue().split("\n")[1:])))
+    a, b = outs
+    assert len(a) == len(b)
+    return [a[i] == b[i] for i in range(len(a))]
+
+
 def run_job(job):
     import z3
     from vlib.enginea import sym, runner, stubs
 
     stubs.load_repo()
+    STRUCT = structural_mask(job["shape"])
     stubs.install_uf_cbc()
     stubs.install_uf_crc()
     stubs.install_uf_sha()
@@ -209,11 +243,11 @@ def run_job(job):
                 runner.record_witness(pos=j, damaged=dam, original=raw, **vals)
             return ok
 
-        budgets = [("full", 45 if quick else 600)]
-        if kind == "replace":
-            budgets += [("classes", 90 if quick else 900), ("classes+tokens", 240 if quick else 900)]
+        if kind == "replace" and STRUCT[j]:
+            # structural byte: try all 255 values, then the property's replacement classes, then classes with MAC tokens
+            budgets = [("full", 45 if quick else 600), ("classes", 120 if quick else 900), ("classes+tokens", 1200 if quick else 3000)]
         else:
-            budgets = [("full", 400 if quick else 1500)]
+            budgets = [("full", 1500 if quick else 4000)]
         for lvl, budget in budgets:
             LEVEL[0] = lvl
             res = runner.run(h, budget, budget)
